@@ -198,7 +198,15 @@ fn inst(r: &mut Rng, used: &mut Vec<String>) -> InstSpec {
     let nip = r.usize_below(5);
     let mut ips = Vec::new();
     for _ in 0..nip {
-        let ip = if r.chance(2, 3) {
+        let ip = if r.chance(1, 6) {
+            // addresses with a special reading: IPv4-mapped / -compatible / NAT64 forms of IPv6,
+            // unspecified, loopback, broadcast, link-local, multicast, documentation
+            (*r.pick(&[
+                "::ffff:192.168.1.5", "::ffff:10.0.0.7", "::192.168.1.5", "64:ff9b::c0a8:105", "::", "::1", "0.0.0.0", "255.255.255.255",
+                "127.0.0.1", "169.254.7.9", "224.0.0.251", "ff02::fb", "2001:db8::1", "fe80::1", "192.168.1.5",
+            ]))
+            .to_string()
+        } else if r.chance(2, 3) {
             format!("192.168.{}.{}", r.below(3), 1 + r.below(250))
         } else {
             format!("fe80::{:x}:{:x}", r.below(65536), 1 + r.below(65535))
@@ -330,7 +338,11 @@ pub fn instance_records(service: &Labels, i: &InstSpec, ttl: u32, flush: bool) -
 }
 
 fn hostile_name(r: &mut Rng, under: &Labels) -> Labels {
-    let l: Vec<u8> = match r.below(8) {
+    let l: Vec<u8> = match r.below(11) {
+        // labels that end inside a multi-byte UTF-8 sequence, or hold an over-long / surrogate form
+        8 => [b"caf".as_slice(), *r.pick(&[[0xc3u8].as_slice(), [0xe2, 0x82].as_slice(), [0xf0, 0x9f, 0x98].as_slice()])].concat(),
+        9 => r.pick(&[[0xc0u8, 0xaf].as_slice(), [0xed, 0xa0, 0x80].as_slice(), [0xf4, 0x90, 0x80, 0x80].as_slice(), [b'a', 0xe2, 0x28, 0xa1].as_slice()]).to_vec(),
+        10 => b"tab\\there\\".to_vec(),
         0 => vec![0xff, 0xfe, 0x80],
         1 => b"a.b".to_vec(),
         2 => vec![0],
